@@ -149,6 +149,7 @@ pub(crate) struct Plan {
     /// readers queue behind a waiting writer (as std's RwLock does on Linux)
     pub writer_pref: bool,
     pub now: Option<(i64, u32)>,
+    pub stdin_delay: Option<i64>,
     pub choices: Vec<usize>,
     pub picks: Vec<usize>,
     pub trace_path: Option<String>,
@@ -170,6 +171,7 @@ impl Default for Plan {
             timeouts: 1,
             writer_pref: false,
             now: None,
+            stdin_delay: None,
             choices: vec![],
             picks: vec![],
             trace_path: None,
@@ -245,6 +247,7 @@ impl Plan {
                         p.now = Some((s, n));
                     }
                 }
+                "stdin_delay" => p.stdin_delay = v.parse().ok(),
                 "choices" => p.choices = parse_list(v),
                 "picks" => p.picks = parse_list(v),
                 "trace" => p.trace_path = Some(v.to_string()),
